@@ -134,8 +134,6 @@ def r1_walk(ctx, prog):
                     if nm and re.search(SHORT_CIRCUIT, nm) and not (re.search(r"::next$", nm) and M.loop_of(bb, i)):
                         r.viol("R1:%s#short-circuit:%s" % (short, nm.split("::")[-1]), "`%s` can stop before every element was seen" % nm.split("::")[-1], file=bb.file, line=t3.get("line"))
                         break
-        if short == "find_used_datakey" and n < 3:
-            r.viol("R1:find_used_datakey#loops", "expected the three nested loops (keys, variables, formatters), found %d" % n, file=b.file, line=b.line)
     b = prog.body("leptos_i18n_build::TranslationsInfos::get_icu_keys_inner")
     if b is not None:
         calls = M.call_blocks(b, r"datakey::find_used_datakey$")
